@@ -4,6 +4,7 @@ import struct
 
 from twisted.python.failure import Failure
 
+from .. import refproto as R
 from ..core import Result, sig
 from ..engines.world import World
 from ..traps import Traps
@@ -139,9 +140,15 @@ def run_once(sc, ghost):
 
         def spy_on(client_, tag):
             def spy(broker, correlationId, request, expectResponse=True, min_timeout=None):
+                # the timeout in force is what the statement says (the client timeout, or the longer minimum for a
+                # group join) -- not whatever reached this function as min_timeout
+                try:
+                    api_ = R.parse_request(request)["api_name"]
+                except Exception:
+                    api_ = "?"
                 m = dict(t0=w.clock.seconds(), node=broker.node_id, corr=correlationId,
-                         T=max(client_.timeout, min_timeout) if min_timeout is not None else client_.timeout, fires=[],
-                         connected=broker.connected(), expect=expectResponse, client=tag)
+                         T=max(client_.timeout, 35.0) if api_ == "JoinGroup" else client_.timeout, fires=[],
+                         connected=broker.connected(), expect=expectResponse, client=tag, api=api_)
                 try:
                     d = orig(client_, broker, correlationId, request, expectResponse, min_timeout)
                 except Exception as e:
